@@ -22,9 +22,14 @@ ConvShape(id, named, doc, gen, nmeth, short, oneline, mdoc, trail, after, gap) =
 Medium(id, named) == ConvShape(id, named, TRUE, FALSE, 2, FALSE, FALSE, TRUE, FALSE, FALSE, 1)
 Plain(id) == Intf(id, FALSE, FALSE, FALSE, TRUE, FALSE, 2, FALSE, FALSE, TRUE, TRUE, FALSE, 1)
 Pres  == {<< >>, <<Decl("pre", "var", TRUE, TRUE, FALSE)>>}
-Posts == {<< >>, <<Decl("post", "func", FALSE, FALSE, FALSE)>>, <<Medium("c2", FALSE)>>, <<Plain("p2")>>}
+\* a second converter interface directly below, as close as it can get: no doc, a short name (marked),
+\* or - when the first one is not called Convergen - an undocumented interface named Convergen
+Tight(id) == ConvShape(id, FALSE, FALSE, FALSE, 1, TRUE, FALSE, FALSE, FALSE, FALSE, 1)
+TightNamed(id) == ConvShape(id, TRUE, FALSE, FALSE, 1, FALSE, FALSE, FALSE, FALSE, FALSE, 1)
+Posts == {<< >>, <<Decl("post", "func", FALSE, FALSE, FALSE)>>, <<Medium("c2", FALSE)>>, <<Plain("p2")>>, <<Tight("c2")>>, <<TightNamed("c2")>>}
 InitAccept ==
-  /\ \E named \in B, doc \in B, gen \in B, short \in B, after \in B, gap \in {0, 1}, pre \in Pres, post \in Posts :
+  /\ \E named \in B, doc \in B, gen \in B, short \in B, after \in B, gap \in {0, 1}, pre \in Pres :
+     \E post \in {q \in Posts : q = << >> \/ ~(named /\ q[1].named)} :      \* only one interface can be called Convergen
        \/ \E nmeth \in {1, 2}, mdoc \in B, trail \in B :
             layout = Lay(pre \o <<ConvShape("c1", named, doc, gen, nmeth, short, FALSE, mdoc, trail, after, gap)>> \o post,
                          FALSE, "gobuild", "none", "none")
